@@ -1,7 +1,7 @@
 (* C14 phase 2: agreement of the two reader models on modules without blackbox instances (part A3) *)
 From stdpp Require Import strings gmap sets pretty.
-From CG Require Import Model.FastVerilog Proofs.FastVerilogProofs Proofs.ApiProofs Gen.Gen_fastv.
-From CG Require Import Proofs.FvA1 Proofs.FvA2.
+From CG Require Import Model.FastVerilog Proofs.FastVerilogProofs Gen.Gen_fastv.
+From CG Require Import Proofs.FvA0 Proofs.FvA1 Proofs.FvA2.
 Open Scope string_scope.
 
 Lemma add_input_spec g n : okname n → add_node g n Input [] = Ok (<[n := mk_node Input false (fanin g n)]> g).
